@@ -12,7 +12,7 @@ TRUSTED_BASE = [
 ]
 
 BASELINE_OFF = ("cd /repo && go test -vet=off -count=1 -timeout 25m ./...")
-HOOK_COMMITS = []
+HOOK_COMMITS = ["1ad419a verif hook: worker-pool limits and forced copy path behind build tag verif"]
 
 PROPS = {
     "C14": dict(
@@ -94,5 +94,34 @@ PROPS = {
                    "running `dud checkout --copy`.",
         level_note="Corruption of manifest objects is outside the property (files only).",
         assumptions=[],
+    ),
+    "C12": dict(
+        families=[dict(name="lock")],
+        level_text="Theorems C12_mutex, C12_refused_clean, C12_released, C12_quiescent_unlocked, C12_bounded over a "
+                   "transition system of any number of dud processes with arbitrary interleaving (atomic O_EXCL acquire, "
+                   "release of the path that was locked, pull's unlock/relock, config get/set without chdir), plus "
+                   "C12_prerepair_refuted (the cwd-relative release leaves the lock behind). proof, partial: OS scheduling "
+                   "and O_EXCL atomicity are assumptions. Tied to the code by running every subcommand x invocation "
+                   "directory x outcome class x pre-existing lock and comparing exit class and lock presence with the model, "
+                   "and by N concurrent `dud run` released together with an atomic-mkdir sentinel in the stage command.",
+        level_note="The descriptor table (which subcommand locks, chdirs, relocks) is asserted in Model/Lock.v and checked "
+                   "against src/cmd through the matrix runs. Killed processes are outside the property.",
+        assumptions=["open(O_CREAT|O_EXCL) is atomic", "a process is not killed (exits on its own)"],
+    ),
+    "C13": dict(
+        families=[dict(name="pool", timeout=1500)],
+        level_text="Theorems C13_flat_terminates (every schedule of one directory level has at most 5N+4 steps), "
+                   "C13_flat_progress / C13_flat_can_finish (no deadlock with >= 1 dedicated worker even if the shared "
+                   "pool is never available), C13_stuck_without_dedicated, C13_flat_joined, C13_flat_tokens, "
+                   "C13_flat_result, C13_exec_total / C13_exec_result_sound / C13_exec_top_level (trees) over a labelled "
+                   "transition system of feeder, collector, spawner and workers with errgroup cancellation, for every N, "
+                   "S >= 0, D >= 1 and every step sequence. proof, partial: the counter abstraction carries no data; "
+                   "'same result as sequential' is the correspondence of the sequential model of Model/Cache.v with the "
+                   "real binary run under pool sizes {0,1,2,64} x {1,2}, GOMAXPROCS {1,2,4,16}, deep chains and wide "
+                   "directories beyond the pool, and an un-committable entry at random positions, with a watchdog.",
+        level_note="Data races and goroutine leaks are not proved and, through the CLI, not observed; Go channel/select/"
+                   "errgroup semantics are as modelled in Model/Sched.v. Pool sizes are set through the verif build-tag hook.",
+        assumptions=["instances interact only through the shared-token counter and downward cancellation",
+                     "Go channel, select and errgroup semantics as modelled"],
     ),
 }
